@@ -162,7 +162,7 @@ CODEC_NOTE = ("Trusted: Coq kernel; translator for message numbers and the minFc
 PROPS = {
     "C01": {
         "modes": [{"name": "codec", "harness": "codec", "modelcheck": "codec"}],
-        "rule": "all 27 message types x {9P2000, 9P2000.u} x integer fields at 0/1/max-1/max/random x string length classes {0,1,2,255,256,65534,65535,random} with arbitrary bytes x 0..16 and 65535 walk names/qids x payloads up to >64 KiB x buffers exact / one short / larger, dirty with a random byte; "
+        "rule": "all 27 message types x {9P2000, 9P2000.u} x integer fields at 0/1/max-1/max/random x string length classes {0,1,2,255,256,65534,65535,random} with arbitrary bytes x 0..16 and 3000 (thorough: 8000) walk names/qids x payloads up to >64 KiB x buffers exact / one short / larger, dirty with a random byte; "
                 "PackX, SetTag, Unpack, PackDir, UnpackDir, InitRread+SetRreadCount run on the real code; the oracle compares the bytes with spec_encode (the independent layout) and the decoded fields with the input; the correspondence compares the Coq models pack/set_tag/unpack/pack_dir/unpack_dir/rread_two_step with the Go functions. "
                 "Non-trivial/distinct: distinct (type, dialect, pack outcome, string-length classes) for messages; distinct content for stat records and two-step reads.",
         "level_text": "Coq theorems (Props/C01.v): for every message value representable on the wire, both dialects and ANY previous buffer contents, the model of each PackT*/PackR* constructor produces exactly spec_encode (size[4] type[1] tag[2] fields, size = packet length), refuses a buffer one byte short, SetTag changes only offsets 5-6, Unpack of those bytes (followed by anything) returns the same field values and consumes exactly the packet, stat records round-trip on their own, and InitRread/SetRreadCount equals the one-step Rread. Unbounded quantification over field values, string lengths 0..65535 and list lengths; the differential check ties the hand-written model to the Go functions on generated messages.",
